@@ -1,2 +1,4 @@
 import PsVerif.Base
 import PsVerif.Props.C24
+import PsVerif.Props.C27
+import PsVerif.Props.C30
